@@ -269,6 +269,13 @@ func (r *committedReader) Read(ctx context.Context, p []byte) (n int, err error)
 			return 0, err
 		}
 		r.pos = entry.Position
+	} else if r.hwSeg != nil && r.hwSeg.IsReplaced() {
+		// The HW segment was replaced due to truncation or compaction while we
+		// were in an earlier segment. The segment which took its place is not
+		// recognized as the HW segment since it's a different one, so we would
+		// read past the HW. Return ErrSegmentReplaced such that the reader is
+		// reinitialized as if we had attempted to read from the old segment.
+		return 0, ErrSegmentReplaced
 	}
 
 	return r.readLoop(ctx, p, segments)
